@@ -31,7 +31,7 @@ const (
 )
 
 var (
-	referrerTagRe = regexp.MustCompile(`^(sha256|sha512)-([0-9a-f]{64})$`)
+	referrerTagRe = regexp.MustCompile(`^(sha256|sha512)-([0-9a-f]{64,121})$`)
 )
 
 // Store interface is used to abstract access to a backend storage system for repositories.
